@@ -3,13 +3,17 @@
    selects at floor(h) / ceil(h) (q > 0.5: the same with fl(1 - q)).  Here, for Coq's primitive `float`
    (carrier NumF64 of Base/F64.v, floor/ceil of Run/RunC12.v), through Flocq's specification of IEEE 754:
      (A) the model's `f64_floorZ` / `f64_ceilZ` ARE the mathematical floor / ceiling of the real value;
-     (B) `(n-1) as f64` is exact for n-1 <= 2^53; fl((n-1) q) lies in [0, n-1] for 0 <= q <= 1 (rounding to
+     (B) `(n-1) as f64` is exact for n-1 < 2^53; fl((n-1) q) lies in [0, n-1] for 0 <= q <= 1 (rounding to
          nearest is monotone and fixes representable numbers); fl(1 - q) lies in [0, 1];
-     (C) hence 0 <= floor <= ceil <= n-1 on both branches: the carrier's index law `q_idx_ok`, for every number
-         n <= 2^53 of valid elements; without a bound on n the law is FALSE at binary64 ((n-1) as f64 may
-         round up: n-1 = 2^53+3 becomes 2^53+4), `qidx_law_f64_unbounded_false`;
+     (C) hence 0 <= floor <= ceil <= n-1 for both products and every q in [0, 1] when n-1 < 2^53
+         (`qidx_f64_in_range`); beyond 2^53 the cast may round UP (2^53+3 becomes 2^53+4) and fl((n-1) q) <= n-1
+         fails for q = 1 (`naive_product_out_of_range`) — but the code multiplies by q only when q <= 0.5 and by
+         fl(1 - q) <= 0.5 otherwise, and half of the rounded length is at most n-1: the index law
+         `TransQuantile.QIdxLaw` holds at binary64 for EVERY n (`qidx_f64_in_range_all`, `qidx_law_f64`);
      (D) the consequences for the model: vquantile / vmedian never panic, null transparency is an outright
-         equality; (E) every non-NaN float equals itself (premise of ts_vargmin / ts_vargmax safety).     *)
+         equality; (E) every non-NaN float equals itself (premise of ts_vargmin / ts_vargmax safety).
+   Assumptions: the Reals axioms and the standard library's specification of the primitive float operations
+   (Floats.FloatAxioms), listed per theorem in notes/C12.md.  Flocq declares none.                          *)
 From Coq Require Import Reals Lra Lia ZArith List Floats Bool Psatz.
 From Flocq Require Import Core BinarySingleNaN.
 From Flocq Require PrimFloat.
